@@ -46,9 +46,41 @@ Verdict(c) ==
              THEN "drift: output differs from (in + reflected in) / 2"
              ELSE "ok"
 
+\* ---------- generic floating-point inputs ----------
+\* rin / r1 / r2 are the DENSE RANKS of all input / first output / second output values taken together: integers that
+\* preserve equality (and order) of the floats exactly, so "bit-exactly invariant / unchanged" is decided here on integers.
+\* mdev = |mean(out) - mean(in)| / max|in| in units of 1e-13, mtol the stated tolerance (1e-12 float64, 1e-5 float32).
+WellFormedF(c) ==
+    /\ c.kind \in (D!Kinds2D \cup D!Kinds3D)
+    /\ Len(c.shape) = 3 /\ D!IsShape(c.shape) /\ D!Applicable(c.kind, c.shape)
+    /\ c.mtol \in {10, 100000000} /\ c.mdev >= 0
+    /\ (c.err = "" /\ c.oshape = c.shape /\ c.finite) =>
+          Len(c.rin) = D!Size(c.shape) /\ Len(c.r1) = D!Size(c.shape) /\ Len(c.r2) = D!Size(c.shape)
+
+VerdictF(c) ==
+    IF ~WellFormedF(c) THEN "malformed: float record"
+    ELSE IF c.err # "" THEN "call: transform raised on a shape it is documented for"
+    ELSE IF c.oshape # c.shape THEN "invariance: output has a different shape, cannot equal its own reflection"
+    ELSE IF ~c.finite THEN "exact: non-finite output for a finite input"
+    ELSE LET P   == D!Positions(c.shape)
+             in  == D!FromFlat(c.shape, c.rin)
+             o1  == D!FromFlat(c.shape, c.r1)
+             o2  == D!FromFlat(c.shape, c.r2)
+         IN  IF ~D!IsSymmetric(o1, c.shape, c.kind)
+             THEN "invariance: float output is not EXACTLY invariant under the transform's reflection / rotation / transposition"
+             ELSE IF D!IsSymmetric(in, c.shape, c.kind) /\ \E p \in P : o1[p] # in[p]
+             THEN "identity: an already symmetric float input was changed"
+             ELSE IF \E p \in P : o2[p] # o1[p]
+             THEN "idempotence: second application changed the float array"
+             ELSE IF c.mdev > c.mtol
+             THEN "mean: array mean not preserved within the stated relative tolerance"
+             ELSE "ok"
+
+VerdictAny(c) == IF c.enc = "rank" THEN VerdictF(c) ELSE Verdict(c)
+
 TInit == ci = 1 /\ TLCSet(1, << >>)
 TNext == /\ ci <= Len(Cases)
-         /\ TLCSet(1, Append(TLCGet(1), [ id |-> Cases[ci].id, v |-> Verdict(Cases[ci]) ]))
+         /\ TLCSet(1, Append(TLCGet(1), [ id |-> Cases[ci].id, v |-> VerdictAny(Cases[ci]) ]))
          /\ ci' = ci + 1
 TSpec == TInit /\ [][TNext]_tvars
 
